@@ -112,7 +112,7 @@ impl<S: FileSystem> Module<S> {
                     return Err(LinkerError(format!(
                         "In \"{}\"\n\n{}:{}:{}: Undefined symbol: \"{label}\"",
                         path.display(),
-                        path.file_name().unwrap().to_str().unwrap(),
+                        path.file_name().unwrap().to_string_lossy(),
                         loc.line,
                         if loc.column == 0 { 1 } else { loc.column }
                     )));
@@ -122,7 +122,7 @@ impl<S: FileSystem> Module<S> {
                         return Err(LinkerError(format!(
                             "In \"{}\"\n\n{}:{}:{}: Undefined symbol: \"{label}\"",
                             path.display(),
-                            path.file_name().unwrap().to_str().unwrap(),
+                            path.file_name().unwrap().to_string_lossy(),
                             loc.line,
                             if loc.column == 0 { 1 } else { loc.column }
                         )));
@@ -143,7 +143,7 @@ impl<S: FileSystem> Module<S> {
                             return Err(LinkerError(format!(
                                 "In \"{}\"\n\n{}:{}:{}: Expression result ({value}) does not fit in a byte",
                                 path.display(),
-                                path.file_name().unwrap().to_str().unwrap(),
+                                path.file_name().unwrap().to_string_lossy(),
                                 loc.line,
                                 if loc.column == 0 { 1 } else { loc.column }
                             )));
@@ -154,7 +154,7 @@ impl<S: FileSystem> Module<S> {
                         return Err(LinkerError(format!(
                             "In \"{}\"\n\n{}:{}:{}: Expression could not be solved",
                             path.display(),
-                            path.file_name().unwrap().to_str().unwrap(),
+                            path.file_name().unwrap().to_string_lossy(),
                             loc.line,
                             if loc.column == 0 { 1 } else { loc.column }
                         )));
@@ -169,7 +169,7 @@ impl<S: FileSystem> Module<S> {
                             return Err(LinkerError(format!(
                                 "In \"{}\"\n\n{}:{}:{}: Expression result ({value}) does not fit in a byte",
                                 path.display(),
-                                path.file_name().unwrap().to_str().unwrap(),
+                                path.file_name().unwrap().to_string_lossy(),
                                 loc.line,
                                 if loc.column == 0 { 1 } else { loc.column }
                             )));
@@ -180,7 +180,7 @@ impl<S: FileSystem> Module<S> {
                         return Err(LinkerError(format!(
                             "In \"{}\"\n\n{}:{}:{}: Expression could not be solved",
                             path.display(),
-                            path.file_name().unwrap().to_str().unwrap(),
+                            path.file_name().unwrap().to_string_lossy(),
                             loc.line,
                             if loc.column == 0 { 1 } else { loc.column }
                         )));
@@ -195,7 +195,7 @@ impl<S: FileSystem> Module<S> {
                             return Err(LinkerError(format!(
                                 "In \"{}\"\n\n{}:{}:{}: Expression result ({value}) does not fit in a word",
                                 path.display(),
-                                path.file_name().unwrap().to_str().unwrap(),
+                                path.file_name().unwrap().to_string_lossy(),
                                 loc.line,
                                 if loc.column == 0 { 1 } else { loc.column }
                             )));
@@ -208,7 +208,7 @@ impl<S: FileSystem> Module<S> {
                         return Err(LinkerError(format!(
                             "In \"{}\"\n\n{}:{}:{}: Expression could not be solved",
                             path.display(),
-                            path.file_name().unwrap().to_str().unwrap(),
+                            path.file_name().unwrap().to_string_lossy(),
                             loc.line,
                             if loc.column == 0 { 1 } else { loc.column }
                         )));
@@ -227,7 +227,7 @@ impl<S: FileSystem> Module<S> {
                             return Err(LinkerError(format!(
                                 "In \"{}\"\n\n{}:{}:{}: Expression result ({value}) does not fit in a byte",
                                 path.display(),
-                                path.file_name().unwrap().to_str().unwrap(),
+                                path.file_name().unwrap().to_string_lossy(),
                                 loc.line,
                                 if loc.column == 0 { 1 } else { loc.column }
                             )));
@@ -240,7 +240,7 @@ impl<S: FileSystem> Module<S> {
                         return Err(LinkerError(format!(
                             "In \"{}\"\n\n{}:{}:{}: Expression could not be solved",
                             path.display(),
-                            path.file_name().unwrap().to_str().unwrap(),
+                            path.file_name().unwrap().to_string_lossy(),
                             loc.line,
                             if loc.column == 0 { 1 } else { loc.column }
                         )));
@@ -256,7 +256,7 @@ impl<S: FileSystem> Module<S> {
                                 return Err(LinkerError(format!(
                                     "In \"{}\"\n\n{}:{}:{}: Assertion failed: {msg}",
                                     path.display(),
-                                    path.file_name().unwrap().to_str().unwrap(),
+                                    path.file_name().unwrap().to_string_lossy(),
                                     loc.line,
                                     if loc.column == 0 { 1 } else { loc.column }
                                 )));
@@ -264,7 +264,7 @@ impl<S: FileSystem> Module<S> {
                             return Err(LinkerError(format!(
                                 "In \"{}\"\n\n{}:{}:{}: Assertion failed",
                                 path.display(),
-                                path.file_name().unwrap().to_str().unwrap(),
+                                path.file_name().unwrap().to_string_lossy(),
                                 loc.line,
                                 if loc.column == 0 { 1 } else { loc.column }
                             )));
@@ -274,7 +274,7 @@ impl<S: FileSystem> Module<S> {
                         return Err(LinkerError(format!(
                             "In \"{}\"\n\n{}:{}:{}: Expression could not be solved",
                             path.display(),
-                            path.file_name().unwrap().to_str().unwrap(),
+                            path.file_name().unwrap().to_string_lossy(),
                             loc.line,
                             if loc.column == 0 { 1 } else { loc.column }
                         )));
